@@ -8,16 +8,20 @@ variable the observable behaviour must not depend on).  The driver runs every
 decode of another file, destination/work-buffer prefill, CPU-specific code
 disabled at compile time); TLC validates the recorded traces with
 spec/Trace_Std.tla (Mode = "same"): every varied run must end with the base
-run's status, output and consumed count, and be a prefix of it at every call."""
-import json, os, shutil
-import stdbuild, stdtrace, stdinputs
+run's status, output and consumed count, and be a prefix of it at every call.
+Token decoders (std/json, std/cbor): besides the raw token hash, the recorded
+token streams are compared by TLC in the normal form of spec/TokenStream.tla
+(clause NormalFormEqualsOracle) and checked for well-formedness under every
+configuration; generated JSON / CBOR documents (lib/tokgen.py) are added."""
+import json, os, random, shutil
+import stdbuild, stdtrace, stdinputs, tokgen
 from vlib import ToolingError, VERIF
 
 META = {
     "level": "exploration",
     "technique": "trace validation by TLC (Trace_Std.tla, Mode same): runs of the freshly generated std C on one <<input, schedule>> under varied initialize flags, memory prefills, object reuse after another decode and CPU-arch-disabled builds must all equal the base configuration's run",
     "text": "Differential runs of the same generated C under every configuration axis the property names; the acceptance predicate (same status, same output, same consumed count, prefix at every call) is evaluated by TLC on the recorded traces. Inputs: corpus + seeded mutants; SIMD twins are reached through inputs long enough for the vector loops with sampled tail lengths 0..63. The documented JPEG exception is built in: CPU on/off is compared for std/jpeg on unmutated (encoder-produced) files only.",
-    "note": "Trusted: gcc honouring WUFFS_CONFIG__AVOID_CPU_ARCH, the driver's hashes. Reading a never-written internal buffer is detected only if it changes the output for one of the prefills (0x00, 0xA5, 0xFF, leftovers of another decode).",
+    "note": "Token decoders: the token stream of every configuration is compared with the base configuration's by TLC (normal form of spec/TokenStream.tla, token by token up to 16 KiB of source, by hash above) and must be well-formed. Trusted: gcc honouring WUFFS_CONFIG__AVOID_CPU_ARCH, the driver's hashes. Reading a never-written internal buffer is detected only if it changes the output for one of the prefills (0x00, 0xA5, 0xFF, leftovers of another decode).",
 }
 
 VARIANTS = [
@@ -58,6 +62,9 @@ def run(ctx):
             mp = os.path.join(mdir, "%s.%s%d" % (os.path.basename(p), kind, i))
             open(mp, "wb").write(stdinputs.mutate(data, rng, kind))
             inputs.append((mp, dec, extra, "mutant:" + kind))
+    # token decoders: generated JSON / CBOR documents and mutants (own random stream: the other jobs stay as they were)
+    trng = random.Random(ctx.seed * 7919 + 9)
+    tokdocs = tokgen.write_docs(ctx.subdir("c09-tokdocs"), trng, 16 if thorough else 8, 12 if thorough else 6, mutants=1, large=thorough)
     # hasher inputs: long enough for the SIMD loops, every tail class sampled
     big = open(os.path.join(stdbuild.REPO, "test", "data", "pi.txt"), "rb").read() if os.path.exists(os.path.join(stdbuild.REPO, "test", "data", "pi.txt")) else bytes(range(256)) * 64
     tails = list(range(64)) if thorough else rng.sample(range(64), 12)
@@ -67,6 +74,7 @@ def run(ctx):
         open(hp, "wb").write(big[:L])
         for h in stdinputs.HASHERS:
             inputs.append((hp, h, {"parts": rng.choice(("*", "%d,*" % rng.randrange(1, 40), "1000"))}, "hasher"))
+    inputs += tokdocs
 
     jobs = {"plain": [], "plain_nocpu": []}
     meta = {}
@@ -80,6 +88,10 @@ def run(ctx):
             piece = rng.choice([q for q in (7, 64, 4096) if n // q <= 300] or [4096])
             scheds.append({"src": str(piece), "dst": rng.choice(("*", "4096", "64")) if n < 20000 else "*",
                            "dstmode": rng.choice(("grow", "compact")), "srcmode": rng.choice(("view", "fresh"))})
+        if stdinputs.KIND.get(dec) == "token" and n <= 1500:
+            # a token buffer of 1..3 tokens under small source pieces: every token lands in freshly prefilled buffer memory
+            cap = trng.choice([c for c in (1, 2, 3) if c >= tokgen.TOKEN_CAP_MIN[dec]])
+            scheds.append({"src": trng.choice(("1", "3")), "dst": str(cap), "srcmode": trng.choice(("view", "fresh"))})
         for sc in scheds:
             jid += 1
             bj = {"id": jid, "dec": dec, "in": p, "init": 0, "prefill": "00", "budget_ms": 60000, "maxcalls": 100000}
@@ -118,7 +130,11 @@ def run(ctx):
             continue
         if be.get("stop") not in ("status", "done"):
             continue      # the base run hit a bound of the exploration: nothing to compare with
-        x = stdtrace.expect_from(be)
+        if stdinputs.KIND.get(meta[jid_]["dec"]) == "token":
+            # same schedule, so the raw token hash (out_hash) must be equal too; "otk" lets TLC compare the normal forms itself
+            x = stdtrace.token_expect(be, ev.get(bid, []), fields=("st", "cls", "out_total", "out_hash", "in_total", "nf_hash"))
+        else:
+            x = stdtrace.expect_from(be)
         x["j"] = jid_
         traces.append((jid_, [evs[0], x] + evs[1:] if evs[0].get("k") == "start" else evs))
         ncmp += 1
@@ -152,6 +168,7 @@ def run(ctx):
         "runs_per_variant": per_variant,
         "traces_validated_against_impl": ncmp,
         "events_validated_by_tlc": nev,
+        "token_streams": dict(stdtrace.token_stats({k: v for k, v in ev.items() if k in base_of}), generated_documents=len(tokdocs)),
         "builds": ["gcc -O2", "gcc -O2 -DWUFFS_CONFIG__AVOID_CPU_ARCH"],
         "states": sum(t["distinct"] for t in ctx.tlc_stats),
         "transitions": sum(t["generated"] for t in ctx.tlc_stats),
